@@ -11,7 +11,7 @@ import json, os, shutil, subprocess, sys, re
 
 prop, k = sys.argv[1], sys.argv[2]
 detected_by = sys.argv[3:] or [prop]
-src = "/tmp/seed-out/%s" % prop
+src = os.environ.get("SEED_SRC") or "/tmp/seed-out/%s" % prop
 wt = "/tmp/wt-keep-%s-%s" % (prop, k)
 patch = "%s/patch%s.diff" % (src, k)
 demo = "%s/demo%s.py" % (src, k)
@@ -42,7 +42,7 @@ try:
     ok = rc0 == 0 and passed >= 153 and not failed and rc1 != 0
     print(json.dumps(record, indent=1))
     if ok:
-        dst = "/verif/seeded/%s-%s" % (prop, k)
+        dst = "/verif/seeded/%s-%s" % (prop, os.environ.get("SEED_DST_K", k))
         os.makedirs(dst, exist_ok=True)
         with open(dst + "/patch.diff", "w") as f:
             f.write(newdiff)
@@ -62,7 +62,7 @@ try:
                 "demo_with_patch": "exit %d" % rc1,
                 "demo_output_tail": record["demo_with_patch_tail"],
             },
-            "run_demo": "cd <worktree with patch applied> && PYTHONPATH=$PWD /venv/bin/python /verif/seeded/%s-%s/demo.py" % (prop, k),
+            "run_demo": "cd <worktree with patch applied> && PYTHONPATH=$PWD /venv/bin/python /verif/seeded/%s-%s/demo.py" % (prop, os.environ.get("SEED_DST_K", k)),
         }
         with open(dst + "/meta.json", "w") as f:
             json.dump(meta, f, indent=1)
